@@ -1564,6 +1564,17 @@ static void* scan_disk(void* arg)
 	int has_syncronized_hardlinks;
 	uint64_t start;
 
+#ifdef SNAPRAID_VERIF
+	{
+		/* verification hook: SNAPRAID_VERIF_SCANDELAY=<disk>:<usec> delays the scan of one disk */
+		/* to select an interleaving of the scan threads; no effect when unset */
+		const char* e = getenv("SNAPRAID_VERIF_SCANDELAY");
+		size_t n = strlen(disk->name);
+		if (e && strncmp(e, disk->name, n) == 0 && e[n] == ':')
+			usleep(atoi(e + n + 1));
+	}
+#endif
+
 	/* check if the disk supports persistent inodes */
 	ret = fsinfo(disk->dir, &has_persistent_inodes, &has_syncronized_hardlinks, 0, 0);
 	if (ret < 0) {
